@@ -747,3 +747,127 @@ func ruleR185(c *Ctx) {
 	}
 	c.Check(ok && setsErr, key, fd.Pos(), "ToHtml runs under a deferred function that itself calls recover() and reports the panic as its error", "ToHtml does not start with a deferred function that itself calls recover() and sets the error result: a panic in a style closure, a lazy list or the custom renderer escapes from ToHtml instead of being reported as an error")
 }
+
+// ---------------------------------------------------------------------------
+// R18.6 the XML name validator accepts XML names only
+
+// XML 1.0 (5th edition) productions [4] NameStartChar and [4a] NameChar
+var xmlNameStart = rsNorm(runeSet{{':', ':'}, {'A', 'Z'}, {'_', '_'}, {'a', 'z'}, {0xC0, 0xD6}, {0xD8, 0xF6}, {0xF8, 0x2FF}, {0x370, 0x37D}, {0x37F, 0x1FFF},
+	{0x200C, 0x200D}, {0x2070, 0x218F}, {0x2C00, 0x2FEF}, {0x3001, 0xD7FF}, {0xF900, 0xFDCF}, {0xFDF0, 0xFFFD}, {0x10000, 0xEFFFF}})
+var xmlNameChar = rsUnion(xmlNameStart, runeSet{{'-', '-'}, {'.', '.'}, {'0', '9'}, {0xB7, 0xB7}, {0x300, 0x36F}, {0x203F, 0x2040}})
+
+// ruleR186 computes, by value-set abstract interpretation of the validator's
+// per-character condition, the exact sets of code points it accepts as first
+// and as following character, and requires them to be subsets of the XML
+// productions (a stricter validator is fine: rejected keys are exported in the
+// <entry key="..."> form).
+func ruleR186(c *Ctx) {
+	ep := c.Pkg("value/export")
+	if ep == nil {
+		c.Undecided("package value/export", token.NoPos, "not found")
+		return
+	}
+	info := ep.TypesInfo
+	fd := c.FuncDecl(ep, "", "isXMLName")
+	key := "value/export.isXMLName#accepted-characters"
+	if fd == nil {
+		c.Undecided(key, token.NoPos, "validator not found")
+		return
+	}
+	// for i, r := range s { if !(COND) { return false } }   /   if COND { continue }; return false
+	var rs *ast.RangeStmt
+	ast.Inspect(fd.Body, func(x ast.Node) bool {
+		if t, ok := x.(*ast.RangeStmt); ok && rs == nil {
+			if bt, ok := info.TypeOf(t.X).Underlying().(*types.Basic); ok && bt.Info()&types.IsString != 0 {
+				rs = t
+			}
+		}
+		return true
+	})
+	if rs == nil || rs.Value == nil {
+		c.Undecided(key, fd.Pos(), "no loop over the characters of the name")
+		return
+	}
+	rv, _ := rs.Value.(*ast.Ident)
+	var idx *ast.Ident
+	if rs.Key != nil {
+		idx, _ = rs.Key.(*ast.Ident)
+	}
+	if rv == nil || len(rs.Body.List) != 1 {
+		c.Undecided(key, rs.Pos(), "loop body is not a single test")
+		return
+	}
+	ifs, ok := rs.Body.List[0].(*ast.IfStmt)
+	if !ok || ifs.Init != nil || ifs.Else != nil || len(ifs.Body.List) != 1 {
+		c.Undecided(key, rs.Pos(), "loop body is not a single test")
+		return
+	}
+	ret, ok := ifs.Body.List[0].(*ast.ReturnStmt)
+	if !ok || len(ret.Results) != 1 || nodeStr(c.Fset, ret.Results[0]) != "false" {
+		c.Undecided(key, ifs.Pos(), "the test does not reject the name")
+		return
+	}
+	// the function must accept only at its end: every other return is `false`
+	onlyFalse := true
+	nTrue := 0
+	inspectNoLit(fd.Body, func(x ast.Node) bool {
+		if r, ok := x.(*ast.ReturnStmt); ok && len(r.Results) == 1 {
+			switch nodeStr(c.Fset, r.Results[0]) {
+			case "false":
+			case "true":
+				nTrue++
+				if r != fd.Body.List[len(fd.Body.List)-1] {
+					onlyFalse = false
+				}
+			default:
+				onlyFalse = false
+			}
+		}
+		return true
+	})
+	if !onlyFalse || nTrue != 1 {
+		c.Undecided(key, fd.Pos(), "the validator accepts a name elsewhere than behind the character loop")
+		return
+	}
+	reject := ifs.Cond // name rejected if true for some character
+	sets := map[string]runeSet{}
+	for _, first := range []bool{true, false} {
+		assume := map[string]bool{}
+		if idx != nil {
+			assume[idx.Name+" > 0"] = !first
+			assume[idx.Name+" == 0"] = first
+			assume[idx.Name+" != 0"] = !first
+			assume[idx.Name+" >= 1"] = !first
+			assume["0 < "+idx.Name] = !first
+		}
+		p := &runePred{c: c, pkg: ep, v: info.ObjectOf(rv), assume: assume}
+		rejected := p.eval(reject)
+		if p.fail != "" {
+			c.Undecided(key, ifs.Pos(), "the per character condition contains %s, which the value-set analysis does not model", p.fail)
+			return
+		}
+		name := "following"
+		if first {
+			name = "first"
+		}
+		sets[name] = rsComplement(rejected)
+	}
+	colon := runeSet{{':', ':'}}
+	badFirst := rsMinus(sets["first"], rsMinus(xmlNameStart, colon))
+	badFollow := rsMinus(sets["following"], rsMinus(xmlNameChar, colon))
+	if len(badFirst) == 0 && len(badFollow) == 0 {
+		c.OK(key, fd.Pos(), "accepted first characters (%d intervals) are a subset of XML NameStartChar without ':', accepted following characters (%d intervals) a subset of NameChar without ':'", len(sets["first"]), len(sets["following"]))
+	} else {
+		msg := ""
+		if len(badFirst) > 0 {
+			msg += "as first character it accepts " + rsString(badFirst, 8) + ", which are no XML NameStartChar"
+		}
+		if len(badFollow) > 0 {
+			if msg != "" {
+				msg += "; "
+			}
+			msg += "as following character it accepts " + rsString(badFollow, 8) + ", which are no XML NameChar"
+		}
+		c.Violation(key, fd.Pos(), "the XML name validator accepts characters that are not allowed in an XML name (%s): a map key containing them is written as an attribute name and the document is not well formed", msg)
+	}
+}
